@@ -14,8 +14,9 @@ from harness.trace import Run, result_str
 PROP = "C13"
 THEOREMS = ["Lbfgsb.C13.filter_keeps_newest", "Lbfgsb.C13.filter_subsequence", "Lbfgsb.C13.filter_curvature",
             "Lbfgsb.C13.identity_filter_noop",
-            "Lbfgsb.C13.memStep_mats_current", "Lbfgsb.C13.identity_update_transparent", "Lbfgsb.C13.curv_test_symmetric"]
-MODULES = ["LbfgsbVerif.Props.C13", "LbfgsbVerif.Props.C13Run"]
+            "Lbfgsb.C13.memStep_mats_current", "Lbfgsb.C13.identity_update_transparent", "Lbfgsb.C13.curv_test_symmetric",
+            "Lbfgsb.C13.redefinition_pairs_curvature"]
+MODULES = ["LbfgsbVerif.Props.C13", "LbfgsbVerif.Props.C13Run", "LbfgsbVerif.Props.C13Mem"]
 
 
 def subseq_pairs(Xs: List[np.ndarray], Gs: List[np.ndarray], sk: np.ndarray, yk: np.ndarray) -> bool:
@@ -40,6 +41,34 @@ def subseq_pairs(Xs: List[np.ndarray], Gs: List[np.ndarray], sk: np.ndarray, yk:
         if ok:
             return True
     return False
+
+
+def _well_conditioned_after(call: Dict[str, Any], eps: float, cmin: float = 1e-3) -> bool:
+    """reference filter (newest to oldest, keep a point iff it has curvature against the oldest kept so far) on the history
+    the update function returned; True iff every retained pair, and the pair formed with the new point when it passes
+    the test, has cos(s, y) > cmin"""
+    X, G = call["X"], call["Gout"]
+    if len(X) != len(G) or not X:
+        return False
+    kx, kg = [X[-1]], [G[-1]]
+    for a, ga in zip(reversed(X[:-1]), reversed(G[:-1])):
+        s_, y_ = kx[0] - a, kg[0] - ga
+        if float(s_ @ y_) > eps * float(y_ @ y_):
+            kx.insert(0, a)
+            kg.insert(0, ga)
+    pairs = [(b - a, gb - ga) for a, b, ga, gb in zip(kx, kx[1:], kg, kg[1:])]
+    s_, y_ = call["x"] - kx[-1], call["gout"] - kg[-1]
+    if float(s_ @ y_) > eps * float(y_ @ y_):
+        pairs.append((s_, y_))
+    if not pairs:
+        return False
+    for s_, y_ in pairs:
+        ns, ny = float(np.linalg.norm(s_)), float(np.linalg.norm(y_))
+        if not (ns > 0 and ny > 0 and float(s_ @ y_) > cmin * ns * ny):
+            return False
+    # comparable scales: theta and the pair curvatures within a moderate range
+    ratios = [float(y_ @ y_) / float(s_ @ y_) for s_, y_ in pairs]
+    return max(ratios) / min(ratios) < 1e6
 
 
 def evaluate_filter(case: Dict[str, Any]) -> Dict[str, Any]:
@@ -105,8 +134,14 @@ def evaluate(case: Dict[str, Any]) -> Dict[str, Any]:
         return {"corr": None, "skipped": None, "tags": ["nonfinite"], "prop": []}
     if run.exc is not None:
         if kind in ("break", "indef"):
-            # an arbitrary rewrite may legitimately drive the kernels into a non-SPD model; only a
-            # curvature-respecting memory is promised, which is checked below on completed runs
+            # an arbitrary rewrite may legitimately drive the kernels into a numerically non-SPD model (pairs with a
+            # barely positive curvature); but when the history the package must keep after the last rewrite — the
+            # filter applied independently to what the update function returned — and the pair of the new point are
+            # all well-conditioned, the memory promised by the property gives an SPD model and the failure is unexplained
+            if calls and _well_conditioned_after(calls[-1], eps):
+                out["prop"].append({"what": f"run raises {type(run.exc).__name__} after a rewrite although the curvature-filtered history "
+                                            "is well-conditioned (the stored pairs cannot all satisfy the curvature condition)", "key": ""})
+                return out
             return {"corr": None, "skipped": None, "tags": ["kernel-exception-after-arbitrary-rewrite"], "prop": []}
         out["prop"].append({"what": f"run with update function raises {type(run.exc).__name__}: {run.exc}", "key": ""})
         return out
